@@ -393,7 +393,8 @@ def render_item(it: Item, derives: List[str], bounds: str = "", extra_attrs: Lis
         for r in it.repr_form:
             lines.append("#[repr(%s)]" % r)
     elif it.repr:
-        lines.append("#[repr(%s)]" % it.repr)
+        # (inside a macro_rules! expansion the integer type arrives as a `ty` fragment: an invisible group around the hint)
+        lines.append("#[repr(%s)]" % (frag(it.repr, "ty") if (_FRAGS is not None and it.repr != "C") else it.repr))
     for g in split_groups(it.metas, it.groups):
         o_, c_ = _DELIMS[0] if not _DELIM_CYCLE else _DELIM_CYCLE[len(lines) % len(_DELIM_CYCLE)]
         lines.append("#[strum%s%s%s]" % (o_, ", ".join(m.rust() for m in g), c_))
@@ -404,7 +405,8 @@ def render_item(it: Item, derives: List[str], bounds: str = "", extra_attrs: Lis
     if it.kind != "enum":
         lines.append("%s%s %s%s%s { pub a: u8 }" % (VIS[it.vis], kw, it.ident, decl, wh))
         return "\n".join(lines)
-    lines.append("%senum %s%s%s {" % (VIS[it.vis], it.ident, decl, wh))
+    ename = frag(it.ident, "ident") if (_FRAGS is not None and getattr(it, "via_macro", None) == "idents") else it.ident   # the enum's NAME as a fragment too
+    lines.append("%senum %s%s%s {" % (VIS[it.vis], ename, decl, wh))
     for v in it.variants:
         a = render_variant_attrs(v)
         if a:
